@@ -181,12 +181,12 @@ def newaxis_squeeze(ctx, shape):
     return ctx.done(ctx.AND(*oks), obs[:3])
 
 
-def broadcast(ctx, shape, adims, tdims, tsizes, via='axes'):
+def broadcast(ctx, shape, adims, tdims, tsizes, via='axes', tdiff=False):
     """a (dims adims) broadcast onto a target axis list tdims (superset, any order)"""
     a, ref, attrs = _build(ctx, shape, dims=adims)
     tlabels = []
     for d, n in zip(tdims, tsizes):
-        if d in adims and shape[adims.index(d)] == n:
+        if d in adims and shape[adims.index(d)] == n and not tdiff:
             tlabels.append(ref.labels[adims.index(d)])
         else:
             tlabels.append(ctx.labels(LK[DIMS.index(d)], n, 't%s_' % d))
@@ -209,7 +209,9 @@ def broadcast(ctx, shape, adims, tdims, tsizes, via='axes'):
             x = p[tdims.index(d)]
             src.append(x if n == tsizes[tdims.index(d)] else 0)
         cells.append(ref.at(src))
-    exp = Ref(tdims, tlabels, cells)
+    # dimensions the array already has keep the array's own labels (its axes travel with its data); only new dimensions take the target's
+    elabels = [ref.labels[adims.index(d)] if (d in adims and shape[adims.index(d)] == n) else l for d, n, l in zip(tdims, tsizes, tlabels)]
+    exp = Ref(tdims, elabels, cells)
     obs = []
     return ctx.done(_ok(ctx, r, exp, attrs, obs), obs)
 
@@ -308,6 +310,9 @@ def templates():
     S, P, Q = [['x', 'y'], [2, 1]], [['x'], [2]], [['z'], [2]]
     for k, specs in enumerate(([S, P, Q], [P, Q, S], [P, S, Q], [S, P], [P, S], [Q, S], [[['y'], [1]], [[], []]], [[[], []], [['y'], [1]], P])):
         add('broadcast-arrays-singleton-%d' % k, 'broadcast_arrays', cost=1, specs=specs)
+    for via in ('axes', 'dimarray', 'odict'):
+        add('broadcast-other-labels-%s' % via, 'broadcast', cost=1, shape=[2, 2], adims=['x', 'y'], tdims=['z', 'x', 'y'], tsizes=[2, 2, 2], via=via, tdiff=True)
+        add('broadcast-other-labels-same-dims-%s' % via, 'broadcast', cost=1, shape=[2], adims=['x'], tdims=['x'], tsizes=[2], via=via, tdiff=True)
     for shape in ([2, 3], [2, 3, 2], [2, 1, 3]):
         add('second-array-%s' % 'x'.join(map(str, shape)), 'second_array', cost=2, shape=shape)
     for names in (['t', 'y', 'x'], ['lon', 'lat', 'time']):
